@@ -16,7 +16,7 @@ import six
 from . import Grid
 from .datatypes import Quantity, Coordinate, Ref, Bin, Uri, \
     MARKER, NA, REMOVE, STR_SUB, XStr
-from .version import LATEST_VER, VER_3_0
+from .version import LATEST_VER, VER_3_0, Version
 from .zoneinfo import timezone_name
 
 # Besides the metacharacters and non-ASCII characters, the control characters
@@ -44,6 +44,14 @@ def uri_sub(match):
         return '\\u%04x' % o
     elif c in '\\`':
         return '\\%s' % c
+
+
+def _pre_3_0(version):
+    """
+    True if the given version is handled with the pre-3.0 rules, that is the
+    same decision Grid and the parsers take (nearest official version).
+    """
+    return Version.nearest(version) < VER_3_0
 
 
 def dump_grid(grid):
@@ -99,7 +107,7 @@ def dump_scalar(scalar, version=LATEST_VER):
     if scalar is None:
         return 'N'
     elif scalar is NA:
-        if version < VER_3_0:
+        if _pre_3_0(version):
             raise ValueError('Project Haystack version %s ' \
                              'does not support NA' \
                              % version)
@@ -110,7 +118,7 @@ def dump_scalar(scalar, version=LATEST_VER):
         return 'R'
     elif isinstance(scalar, list):
         # Forbid version 2.0 and earlier.
-        if version < VER_3_0:
+        if _pre_3_0(version):
             raise ValueError('Project Haystack version %s ' \
                              'does not support lists' \
                              % version)
@@ -119,7 +127,7 @@ def dump_scalar(scalar, version=LATEST_VER):
             scalar))
     elif isinstance(scalar, dict):
         # Forbid version 2.0 and earlier.
-        if version < VER_3_0:
+        if _pre_3_0(version):
             raise ValueError('Project Haystack version %s ' \
                              'does not support dicts' \
                              % version)
@@ -131,6 +139,10 @@ def dump_scalar(scalar, version=LATEST_VER):
     elif isinstance(scalar, Bin):
         return dump_bin(scalar, version=version)
     elif isinstance(scalar, XStr):
+        if _pre_3_0(version):
+            raise ValueError('Project Haystack version %s ' \
+                             'does not support XStr' \
+                             % version)
         return dump_xstr(scalar, version=version)
     elif isinstance(scalar, Uri):
         return dump_uri(scalar, version=version)
@@ -151,6 +163,10 @@ def dump_scalar(scalar, version=LATEST_VER):
             isinstance(scalar, int):
         return dump_decimal(scalar, version=version)
     elif isinstance(scalar, Grid):
+        if _pre_3_0(version):
+            raise ValueError('Project Haystack version %s ' \
+                             'does not support nested grids' \
+                             % version)
         return "<<" + dump_grid(scalar) + ">>"
     else:
         raise NotImplementedError('Unhandled case: %r' % scalar)
